@@ -33,7 +33,11 @@ LEVEL_NOTE = ("numpy.sort is modelled by its specification (sorted permutation);
               "the exact model, with a lossy search domain it is proved to return the exact count plus the collisions; the "
               "two input sub-classes where promotion makes the unchanged library miss the property are known findings "
               "D35/D36 (reported with their signature; kernel-checked witnesses on the faithful model; on every run the "
-              "faithful model is compared with the library's actual outputs on those classes, see extra.np_layer).")
+              "faithful model is compared with the library's actual outputs on those classes, see extra.np_layer)."
+              " A third known finding, D48: a sample given as a list / tuple of Python ints straddling 2**63 is turned into "
+              "float64 by numpy.asarray (Model/EcdfPromote.lean listDom / listSample; kernel-checked witness "
+              "Ecdf.finding_list_straddling_2p63; corpus/C09 witnesses run first); membership is structural (the list becomes "
+              "float64 and a value involved is not a float64 value), every other list of Python ints is judged as usual.")
 DESIGN_REF = "DESIGN.md §4 C09"
 
 THEOREMS = ["Ecdf.ge_ecdf_eq", "Ecdf.le_ecdf_eq", "Ecdf.ecdf_sum", "Ecdf.ge_anti", "Ecdf.le_mono",
@@ -82,11 +86,8 @@ RULE = ("exhaustive: every multiset of size 1..7 over two 6-letter alphabets (1.
 # Sub-classes of the dtype generators on which the UNCHANGED library violates the property: known findings D35 / D36 of
 # /verif/known_findings.json (signature "ecdf:<name>"). Cases of a listed sub-class ARE evaluated: a wrong answer or an
 # exception there is reported with that signature (-> KNOWN-FINDING line), a right answer is compared with the model as
-# usual. AWAITING_DECISION stays empty unless a new candidate is parked.
-#  python-int-list-straddling-2^63 (round 4, parked): a sample handed over as a list / tuple of Python ints of which some
-#    are >= 2**63 and some are smaller: numpy.asarray makes it float64 (not uint64, not object), so neighbours beyond 2**53
-#    collapse before the library compares anything (same family as D35, but the D35 repair does not cover it).
-AWAITING_DECISION = ["python-int-list-straddling-2^63"]
+# usual. AWAITING_DECISION stays empty unless a new candidate is parked (D48 was parked there until it was decided).
+AWAITING_DECISION = []
 KNOWN_FINDING_CLASSES = [
     # integer sample and query whose numpy common dtype is a float (int64 x uint64, uint64 x Python int, integer x float
     # query) while a sample value or the query is not exactly representable in it (|t| > 2**53): numpy.searchsorted
@@ -96,6 +97,12 @@ KNOWN_FINDING_CLASSES = [
     # within half a spacing outside the sample's extremes: the two short-circuit comparisons round the (weak) Python
     # scalar to the sample dtype, numpy.searchsorted compares in float64 -> index -1 / n
     "narrow-float-sample-weak-python-query",
+    # D48: a sample handed over as a list / tuple / deque of Python ints of which some are >= 2**63 and some smaller:
+    # numpy.asarray makes it float64 (int64-typed and uint64-typed entries promote to float64), so neighbours beyond 2**53
+    # collapse before the library compares anything. Membership is structural (`_list_class`): the list becomes float64
+    # AND a sample value or the query is not exactly representable in float64; every other list of Python ints (all below
+    # 2**63, all from 2**63 on, object arrays) is judged as usual.
+    "python-int-list-straddling-2^63",
 ]
 
 
@@ -462,6 +469,7 @@ def run(run, rng, tier):
     drv, pending = Driver(), []
     _detect_helpers(run)
     _validate_promotion_table(run)
+    _stage(run, "corpus", lambda: _corpus(run))
     # empty sample: the library returns None
     from csep.utils import stats
     # empty sample: OUTSIDE the property ("for any non-empty sample"); today the library returns None (Ecdf.empty_none)
@@ -914,7 +922,7 @@ def _sessions(run, rng, tier):
 
 # ----------------------------------------------------------------------------- statement-level layer (Model/EcdfCode.lean)
 CONTAINERS = ["list", "tuple", "array", "series", "range", "array.array", "deque", "subclass"]
-CALL_FORMS = ["positional", "keywords", "cdf-own-tuple", "cdf-own-list", "cdf-own-pylists", "cdf-empty", "quantiles-kw",
+CALL_FORMS = ["positional", "quantiles", "keywords", "cdf-own-tuple", "cdf-own-list", "cdf-own-pylists", "cdf-empty", "quantiles-kw",
               "binned", "binned-kw"]
 
 
@@ -952,6 +960,20 @@ def _qtext(v):
     return "nan" if f != f else ("inf" if f == math.inf else ("-inf" if f == -math.inf else frac(Fraction(_exact(v)))))
 
 
+def _list_class(x, v):
+    """known-finding class D48 of a sample given as a sequence of Python ints, or None: numpy turns it into float64 and
+    some sample value or the (integer) query is not a float64 value"""
+    seq = list(x)
+    if not seq or not all(isinstance(t, int) and not isinstance(t, bool) for t in seq):
+        return None
+    if numpy.asarray(seq).dtype.kind != "f":
+        return None
+    vals = seq + ([int(v)] if isinstance(v, (int, numpy.integer)) and not isinstance(v, bool) else [])
+    if all(int(float(t)) == t for t in vals):
+        return None
+    return "python-int-list-straddling-2^63"
+
+
 def _run_code_case(run, case, drv=None, pend=None):
     """one call of the quantile functions in one ARGUMENT FORM (container, keywords, cdf=) -> exact oracle; the same call
     is queued for the statement-level model (`ecdf_code` / `binned_code`)"""
@@ -968,12 +990,17 @@ def _run_code_case(run, case, drv=None, pend=None):
         v = _mk_query(vt, case["v"])
     form = case["form"]
     n = len(fx)
+    sig = None
     if dt.kind == "O":
         a = numpy.asarray(list(x))
-        if a.dtype.kind == "f":             # numpy rounds a list straddling 2**63 to float64 (parked candidate)
-            if "python-int-list-straddling-2^63" in AWAITING_DECISION:
-                run.count("awaiting:python-int-list-straddling-2^63")
+        lc = _list_class(x, v)
+        if lc is not None:
+            if lc in AWAITING_DECISION:
+                run.count("awaiting:" + lc)
                 return
+            if lc in KNOWN_FINDING_CLASSES:       # D48: evaluated; a wrong answer is reported with the finding's signature
+                sig = "ecdf:" + lc
+                run.count("known-class:" + lc)
         elif a.dtype.kind in "iu" and awaiting_class(a, v) is not None:
             run.count("code-layer:skipped-known-class")       # uint64 sample x Python int query: D35, judged in _dtype_cases
             return
@@ -1000,6 +1027,8 @@ def _run_code_case(run, case, drv=None, pend=None):
                 got = (stats.greater_equal_ecdf(x, v, cdf=cdf), stats.less_equal_ecdf(x, v, cdf=cdf))
             elif form == "positional":
                 got = (stats.greater_equal_ecdf(x, v), stats.less_equal_ecdf(x, v))
+            elif form == "quantiles":
+                got = stats.get_quantiles(x, v)
             elif form == "keywords":
                 got = (stats.greater_equal_ecdf(x=x, val=v), stats.less_equal_ecdf(val=v, x=x))
             elif form == "quantiles-kw":
@@ -1032,12 +1061,13 @@ def _run_code_case(run, case, drv=None, pend=None):
             _outside(run, "argument-form-rejected", False)
             return
         if stale is None and kge is not None:
-            run.oracle_failure(case, f"{form} on a {case['container']}: exception {type(e).__name__}: {e}")
+            run.oracle_failure(case, f"{form} on a {case['container']}: exception {type(e).__name__}: {e}", signature=sig)
             return
         got = "exc:" + type(e).__name__
     verdict = stale is None and kge is not None        # a stale cdf / a nan query are outside the property: statistic
     if verdict and not _feq(got, (kge / n, kle / n)):
-        run.oracle_failure(case, f"{form} on a {case['container']} of {dt.name}: (ge, le)={got!r}, expected ({kge}/{n}, {kle}/{n})")
+        run.oracle_failure(case, f"{form} on a {case['container']} of {dt.name}: (ge, le)={got!r}, expected ({kge}/{n}, {kle}/{n})",
+                           signature=sig)
         return
     if drv is not None:
         line = f"ecdf_code {flist(fx)} {_qtext(v)}" + (f" {flist(Fraction(t) for t in stale)}" if stale is not None else "")
@@ -1049,10 +1079,7 @@ def _code_layer(run, rng, tier):
     infinities) against the statement-level model: arrays, reversed array, subscripts, numpy's binary search"""
     from csep.utils import stats
     drv, pend = Driver(), []
-    stat = run.extra.setdefault("code_layer", dict(
-        note="statement-level model (Model/EcdfCode.lean) against the library; verdict for finite / infinite queries, "
-             "statistic for nan queries and for a cdf= of another sample (outside the property)",
-        cases=0, outside_property_cases=0, outside_property_predicted=0, disagreements=[]))
+    stat = _code_stat(run)
     for _ in range(1000 if tier == "quick" else 12000):
         dt = numpy.dtype(rng.choice(["int64", "float64", "float64", "int32", "float32", "uint8", "int16"]))
         kind = rng.choice(CONTAINERS)
@@ -1116,6 +1143,17 @@ def _code_layer(run, rng, tier):
         case = dict(tag="ecdf-arrays", container=kind, x=[str(t) for t in vals])
         run.case(case, None)
         _run_ecdf_arrays(run, case)
+    _flush_code(run, drv, pend, stat)
+
+
+def _code_stat(run):
+    return run.extra.setdefault("code_layer", dict(
+        note="statement-level model (Model/EcdfCode.lean) against the library; verdict for finite / infinite queries, "
+             "statistic for nan queries and for a cdf= of another sample (outside the property)",
+        cases=0, outside_property_cases=0, outside_property_predicted=0, disagreements=[]))
+
+
+def _flush_code(run, drv, pend, stat):
     out = drv.run()
     for case, i, got, verdict in pend:
         parts = out[i].split(" ")
@@ -1138,6 +1176,24 @@ def _code_layer(run, rng, tier):
                 stat["outside_property_predicted"] += 1
             elif len(stat["disagreements"]) < 6:
                 stat["disagreements"].append(dict(case=case, library=repr(got), model=out[i]))
+
+
+def _corpus(run):
+    """corpus/C09/*.json (minimised witnesses and their must-stay-right neighbours) run first"""
+    import json
+    cdir = os.path.join(os.path.dirname(os.path.dirname(os.path.abspath(__file__))), "corpus", "C09")
+    if not os.path.isdir(cdir):
+        return
+    drv, pend = Driver(), []
+    for fn in sorted(os.listdir(cdir)):
+        if fn.endswith(".json"):
+            case = json.load(open(os.path.join(cdir, fn)))
+            case = dict(case.get("case", case))
+            if case.get("tag") == "code-layer":
+                run.case(case, None)
+                run.count("corpus")
+                _run_code_case(run, case, drv, pend)
+    _flush_code(run, drv, pend, _code_stat(run))
 
 
 def _run_ecdf_arrays(run, case):
